@@ -594,14 +594,23 @@ func (t *SymbolTable) mapStringToNoneTerminal(s Strings, suffix string) grammar.
 		}
 	}
 
-	if name == "" {
-		t.strings.counter++
-		name = fmt.Sprintf("gen%d_%s", t.strings.counter, suffix)
-	} else {
+	if name != "" {
 		name = fmt.Sprintf("gen_%s_%s", name, suffix)
 	}
 
+	// The name must not be taken by another non-terminal (for example, gen_plus_opt for both [plus] and ["+"]).
+	for name == "" || t.isNonTerminal(grammar.NonTerminal(name)) {
+		t.strings.counter++
+		name = fmt.Sprintf("gen%d_%s", t.strings.counter, suffix)
+	}
+
 	return grammar.NonTerminal(name)
+}
+
+// isNonTerminal determines whether or not a non-terminal symbol has already been added to the symbol table.
+func (t *SymbolTable) isNonTerminal(A grammar.NonTerminal) bool {
+	_, ok := t.nonTerminals.table.Get(A)
+	return ok
 }
 
 var terminalNames = map[grammar.Terminal]string{
